@@ -105,6 +105,64 @@ def tree_cases(rng, trees, sep, style, family, check_punct=True):
     return out
 
 
+def large_corpus_command(ck, rng):
+    """wordseg-prep on corpora of more than 10000 / 20000 utterances (a size no in-process case reaches), with blank lines
+    interleaved: the prepared and gold files are the function results, one line per non-empty input line"""
+    import os
+    import shutil
+    import subprocess
+    import tempfile
+    from wordseg.prepare import prepare, gold
+    from wordseg.separator import Separator
+    sep = ('_', ';esyll', ';eword')
+    pool = []
+    while len(pool) < 40:
+        t = sl.rand_tree(rng, sl.PHONES['ipa'])
+        if sl.tree_ok(t, sep):
+            pool.append(sl.render(t, sep, 'compact'))
+    for size, unit in ((10003, 'phone'), (20001, 'syllable')) if ck.thorough else ((10003, 'syllable'),):
+        lines = []
+        for i in range(size):
+            lines.append(pool[(i * 7 + i // 40) % len(pool)])
+            if i % 997 == 0:
+                lines.append('')
+        d = tempfile.mkdtemp(prefix='c04_')
+        try:
+            open(os.path.join(d, 'in.txt'), 'w', encoding='utf8').write('\n'.join(lines) + '\n')
+            r = subprocess.run(['/venv/bin/python', '-m', 'wordseg.prepare', '-q', '-u', unit, '-p', sep[0], '-s', sep[1], '-w', sep[2],
+                                '-o', os.path.join(d, 'prep.txt'), '-g', os.path.join(d, 'gold.txt'), os.path.join(d, 'in.txt')],
+                               capture_output=True, env=dict(os.environ, PYTHONPATH='/repo', PYTHONWARNINGS='ignore'), cwd=d)
+            S = Separator(*sep)
+            want_p = list(prepare(lines, S, unit=unit))
+            want_g = list(gold(lines, S))
+            got = {}
+            for name in ('prep.txt', 'gold.txt'):
+                fn = os.path.join(d, name)
+                got[name] = open(fn, encoding='utf8').read() if os.path.exists(fn) else None
+            why = None
+            nonempty = sum(1 for l in lines if l.strip())
+            if r.returncode != 0:
+                why = 'wordseg-prep exits with status %d: %s' % (r.returncode, r.stderr.decode('utf8', 'replace')[-300:])
+            elif len(want_p) != nonempty or len(want_g) != nonempty:
+                why = 'prepare()/gold() return %d/%d lines for %d non-empty input lines' % (len(want_p), len(want_g), nonempty)
+            else:
+                for name, want in (('prep.txt', want_p), ('gold.txt', want_g)):
+                    if got[name] != '\n'.join(want) + '\n':
+                        gl = (got[name] or '').split('\n')
+                        bad = next((i for i, (a, b) in enumerate(zip(gl, want)) if a != b), min(len(gl), len(want)))
+                        why = 'wordseg-prep wrote %d lines in %s for %d utterances; first difference at line %d: %r instead of %r' % (
+                            len(gl) - 1, name, len(want), bad + 1, gl[bad][:80] if bad < len(gl) else None, want[bad][:80] if bad < len(want) else None)
+                        break
+            ck.case('large-corpus-command:%d:%s' % (size, unit), True, sample={'utterances': size, 'unit': unit, 'sep': sep})
+            ck.count('family:large-corpus-command')
+            if why:
+                ck.violation({'site': 'python -m wordseg.prepare', 'input': {'utterances': size, 'unit': unit, 'sep': sep,
+                                                                           'corpus': 'pool[(i*7 + i//40) % 40] for i < size, a blank line after every 997th', 'pool': pool}},
+                             'property fails on the implementation: ' + why)
+        finally:
+            shutil.rmtree(d, ignore_errors=True)
+
+
 def main():
     ck = Check('C04')
     failures = ck.prove()
@@ -134,6 +192,7 @@ def main():
     for c in cases:
         ck.count('family:' + c['desc']['family'])
     correspond(ck, cases)
+    large_corpus_command(ck, rng)
     nre, problems = ck.coq_recheck()
     finish_proof_failures(ck, failures + problems)
     return ck.finish(
